@@ -104,6 +104,12 @@ def prior_content(rng, st, which):
         if which == "ignoreblock+own":
             return blk + "\n\n" + own + "\n\nK1 code\n", {"SPDX-FileCopyrightText: 2002 Own Earlier"}, {"ISC"}
         return own + "\n\n" + blk + "\n\nK1 code\n", {"SPDX-FileCopyrightText: 2002 Own Earlier"}, {"ISC"}
+    if which == "contrib-top+far":
+        # the header at the top names contributors only; much further down (beyond the linter's window) a vendored piece carries
+        # a notice of its own: the header is the one at the top
+        top = trees.comment_block(st, ["SPDX-FileContributor: Top Contributor"])
+        far = trees.comment_block(st, ["vendored helper", "SPDX-FileCopyrightText: 1998 Vendored Helper", "SPDX-License-Identifier: Zlib"])
+        return top + "\n\n" + "".join(f"K{i} = 'filler filler filler filler filler filler'\n" for i in range(110)) + "\n" + far + "\nK999 end\n", set(), set()
     return own + "\n\nK1 code\n", {"SPDX-FileCopyrightText: 2002 Own Earlier"}, {"ISC"}
 
 
@@ -117,14 +123,17 @@ def one(res, ctx, root, rng, t, forced_style, idx, sample=False):
     f = d / fname
     binary = t is not None and rng.random() < 0.08
     uncomm = t is not None and (t["uncommentable"] or t["empty"])
-    which = rng.choice(["empty", "code", "foreign", "own", "own", "longcr", "ignoreblock", "ignoreblock+own", "own+ignoreblock", "ignoreblock2", "ignoreblock-endstart", "sfx", "utf16"]) if st is not None and not uncomm else rng.choice(["empty", "code"])
+    which = rng.choice(["empty", "code", "foreign", "own", "own", "longcr", "ignoreblock", "ignoreblock+own", "own+ignoreblock", "ignoreblock2", "ignoreblock-endstart", "sfx", "utf16", "contrib-top+far", "own+empty-sidecar"]) if st is not None and not uncomm else rng.choice(["empty", "code"])
     if binary:
         f.write_bytes(trees.BINARY_BLOB)
         prev_c, prev_l = set(), set()
     else:
         body, prev_c, prev_l = prior_content(rng, st, which) if st else (rng.choice(["", "K1 code\n"]), set(), set())
-        if (uncomm or t is None and not forced_style) and (which in ("foreign", "own", "sfx") or which.startswith(("ignoreblock", "own+"))):
+        if (uncomm or t is None and not forced_style) and (which in ("foreign", "own", "sfx", "contrib-top+far") or which.startswith(("ignoreblock", "own+"))):
             body, prev_c, prev_l, which = "K1 code\n", set(), set(), "code"
+        if which == "own+empty-sidecar":
+            # an empty FILE.license stands for the file: its own header is nobody's information, before and after
+            (f.parent / (f.name + ".license")).write_text("")
         if which == "utf16":
             f.write_bytes(body.encode("utf-16"))
         else:
@@ -399,7 +408,7 @@ def run_case(case, ctx):
 
 
 NEEDED_CELLS = ["content:own", "content:foreign", "content:longcr", "content:ignoreblock", "content:ignoreblock+own", "content:own+ignoreblock",
-                "content:ignoreblock2", "content:ignoreblock-endstart", "content:binary", "content:sfx", "content:utf16", "multi:with-files-that-cannot-be-annotated",
+                "content:ignoreblock2", "content:ignoreblock-endstart", "content:binary", "content:sfx", "content:utf16", "content:contrib-top+far", "content:own+empty-sidecar", "multi:with-files-that-cannot-be-annotated",
                 "template:custom-html", "template:nocontrib", "multi:with-dot-license-only-files"]
 
 
